@@ -25,9 +25,11 @@ type opSc struct {
 	Op         string `json:"op"` // gcp findpeer getvalue searchvalue findprov findprovasync putvalue provide provideopt
 	Quorum     int    `json:"quorum,omitempty"`
 	Count      int    `json:"count,omitempty"`
-	CancelMs   int    `json:"cancel_ms,omitempty"`   // 0 = never
-	DeadlineMs int    `json:"deadline_ms,omitempty"` // provide: context deadline (0 = none)
-	NoAddrs    bool   `json:"no_addrs,omitempty"`    // the host advertises no address
+	CancelMs   int    `json:"cancel_ms,omitempty"`    // 0 = never
+	DeadlineMs int    `json:"deadline_ms,omitempty"`  // provide: context deadline (0 = none)
+	NoAddrs    bool   `json:"no_addrs,omitempty"`     // the host advertises no address
+	Abandon    bool   `json:"abandon,omitempty"`      // channel operations: the consumer stops reading the moment it cancels (cancel and walk away)
+	SlowReadMs int    `json:"slow_read_ms,omitempty"` // channel operations: the consumer pauses this long after every value it reads (the producer is then usually blocked handing over the next one)
 }
 
 type opObs struct {
@@ -106,6 +108,10 @@ func runOp(t *testing.T, sc *opSc) opObs {
 			defer c2()
 		}
 		key := s.keyString()
+		var abandon <-chan struct{} // nil: the consumer reads until the channel is closed
+		if sc.Abandon {
+			abandon = ctx.Done()
+		}
 		done := make(chan struct{})
 		obs.Started = env.sim.Now()
 		go func() {
@@ -130,15 +136,48 @@ func runOp(t *testing.T, sc *opSc) opObs {
 				ch, err := env.d.SearchValue(ctx, key, Quorum(sc.Quorum))
 				obs.Err = err
 				if err == nil {
-					for v := range ch {
-						obs.Values = append(obs.Values, v)
+				readV:
+					for {
+						select {
+						case v, ok := <-ch:
+							if !ok {
+								break readV
+							}
+							if sc.SlowReadMs > 0 {
+								select {
+								case <-time.After(time.Duration(sc.SlowReadMs) * time.Millisecond):
+								case <-abandon:
+									break readV
+								}
+							}
+							obs.Values = append(obs.Values, v)
+						case <-abandon:
+							break readV
+						}
 					}
 				}
 			case "findprov":
 				obs.Provs, obs.Err = env.d.FindProviders(ctx, cid.NewCidV1(cid.Raw, mh.Multihash(key)))
 			case "findprovasync":
-				for p := range env.d.FindProvidersAsync(ctx, cid.NewCidV1(cid.Raw, mh.Multihash(key)), sc.Count) {
-					obs.Provs = append(obs.Provs, p)
+				pch := env.d.FindProvidersAsync(ctx, cid.NewCidV1(cid.Raw, mh.Multihash(key)), sc.Count)
+			readP:
+				for {
+					select {
+					case p, ok := <-pch:
+						if !ok {
+							break readP
+						}
+						if sc.SlowReadMs > 0 {
+							select {
+							case <-time.After(time.Duration(sc.SlowReadMs) * time.Millisecond):
+							case <-abandon:
+								break readP
+							}
+						}
+						obs.Provs = append(obs.Provs, p)
+					case <-abandon:
+						break readP
+					}
 				}
 			case "putvalue":
 				obs.Err = env.d.PutValue(ctx, key, simValue(3, strings.TrimPrefix(key, "/v/"), "p"))
@@ -207,10 +246,10 @@ func judgeOp(sc *opSc, obs opObs, res *verifsim.Result) {
 		return
 	}
 	if obs.Cancelled > 0 {
-		if obs.Returned-obs.Cancelled > time.Second {
+		if obs.Returned-obs.Cancelled > time.Second+3*time.Duration(sc.SlowReadMs)*time.Millisecond { // (a pausing consumer may be in a pause, and reads what was already handed over)
 			res.Fail("cancellation-prompt", "C03/"+op+"/slow-cancel", "%s returned %v after its context was cancelled", op, obs.Returned-obs.Cancelled)
 		}
-	} else if sc.DeadlineMs == 0 {
+	} else if sc.DeadlineMs == 0 && sc.SlowReadMs == 0 { // (with a pausing consumer the call's duration is the consumer's own)
 		last := max(obs.LastEnd, obs.Started)
 		if obs.Returned-last > time.Second {
 			res.Fail("returns-when-peers-done", "C03/"+op+"/idle-wait", "%s returned at %v, %v after the last contacted peer had answered, failed or timed out (%v)", op, obs.Returned, obs.Returned-last, last)
@@ -335,6 +374,8 @@ func genOp(t *rapid.T) opSc {
 		sc.DeadlineMs = rapid.SampledFrom([]int{50, 3000, 9000, 15000, 120000}).Draw(t, "deadlineMs")
 	}
 	sc.NoAddrs = rapid.IntRange(0, 9).Draw(t, "noAddrs") == 0
+	sc.Abandon = sc.CancelMs > 0 && sc.DeadlineMs == 0 && rapid.Bool().Draw(t, "abandon")
+	sc.SlowReadMs = rapid.SampledFrom([]int{0, 0, 40, 700}).Draw(t, "slowRead")
 	return sc
 }
 
@@ -344,7 +385,7 @@ func TestVerif_C03_Operations(t *testing.T) {
 		Rule: "rapid: operation in {GetClosestPeers, FindPeer, GetValue, SearchValue (quorum 0/1/2/16), FindProviders, FindProvidersAsync (count 0/1/2/5), PutValue, Provide classic (with/without " +
 			"deadline), Provide optimistic (size estimator primed from the peer pool, the key's truly nearest peers included)} x 1-25 simulated peers with fault mixes (mixed, all failing, all silent, slow tail; " +
 			"failing/hanging write recipients) x cancellation instant (never, uniform, on/next to a peer's latency); under synctest: the call must return within 1 s of virtual time after the last contacted peer " +
-			"answered/failed/timed out (or after cancellation), channels are drained to closure, no panic, and 10 min after the return plus Close no goroutine of the bubble may be alive; " +
+			"answered/failed/timed out (or after cancellation), channels are drained to closure (or abandoned by the consumer the moment it cancels), no panic, and 10 min after the return plus Close no goroutine of the bubble may be alive; " +
 			"non-trivial = a failing or silent peer, or a cancellation that landed inside the operation",
 		Gen: genOp,
 		Run: func(t *testing.T, sc opSc) (res verifsim.Result) {
